@@ -36,6 +36,12 @@ pub struct ElfSpec {
     /// most-significant byte first - an image of a foreign architecture mapped by a cross tool, an
     /// emulator or a binary inspector. (Not drawn by `random`: callers opt in.)
     pub big_endian: bool,
+    /// the page holding the dynamic string table is ALSO loaded by a further PT_LOAD at a much
+    /// higher address, and DT_STRTAB points there (what `patchelf --set-soname/--set-rpath` and
+    /// similar post-link editors produce): the string table's segment has another
+    /// address-to-offset delta than the first one. (Not drawn by `random`: file-image lanes opt in -
+    /// the loader model of the live lanes maps segments back to back.)
+    pub strtab_own_segment: bool,
 }
 
 impl ElfSpec {
@@ -59,6 +65,7 @@ impl ElfSpec {
             // (only used where a watchdog surrounds the reader: a reader that never ends would hang an in-process check)
             dynamic_section_cuts_null: false,
             big_endian: false,
+            strtab_own_segment: false,
         }
     }
 }
@@ -161,6 +168,14 @@ pub fn build(spec: &ElfSpec) -> Built {
     phdrs.push((1, 4, 0, 0x1000, 0x1000, 0x1000)); // PT_LOAD r--
     phdrs.push((1, 5, text_off as u64, (text_pages * 0x1000) as u64, (text_pages * 0x1000) as u64, 0x1000)); // r-x
     phdrs.push((1, 6, data_off as u64, data_len as u64, data_len as u64, 0x1000)); // rw-
+    const STRTAB_DELTA: u64 = 0x20_0000;
+    let special = if spec.strtab_own_segment {
+        phdrs.push((1, 4, 0, 0x1000, 0x1000, 0x1000)); // r--: the first page again, 2 MiB higher
+        Some(phdrs.len() - 1)
+    } else {
+        None
+    };
+    let strtab_delta = if spec.strtab_own_segment { STRTAB_DELTA } else { 0 };
     if spec.empty_first_note {
         phdrs.push((4, 4, (note_off - 8) as u64, 0, 0, 4));
     }
@@ -213,6 +228,7 @@ pub fn build(spec: &ElfSpec) -> Built {
     // ---- program headers
     for (i, (t, fl, off, fsz, msz, al)) in phdrs.iter().enumerate() {
         let p = format!("ph{i}.");
+        let bias = bias + if Some(i) == special { STRTAB_DELTA } else { 0 };
         if b64 {
             o.f(&(p.clone() + "p_type"), 4, *t as u64);
             o.f(&(p.clone() + "p_flags"), 4, *fl as u64);
@@ -254,7 +270,7 @@ pub fn build(spec: &ElfSpec) -> Built {
     if spec.soname.is_some() && !spec.soname_last {
         dyns.push((14, soname_off as u64)); // DT_SONAME
     }
-    dyns.push((5, dynstr_off as u64 + bias)); // DT_STRTAB
+    dyns.push((5, dynstr_off as u64 + bias + strtab_delta)); // DT_STRTAB
     dyns.push((10, dynstr.len() as u64)); // DT_STRSZ
     if spec.soname.is_some() && spec.soname_last {
         dyns.push((14, soname_off as u64)); // DT_SONAME
@@ -296,7 +312,7 @@ pub fn build(spec: &ElfSpec) -> Built {
             secs.push((n_shstr, 3, 0, 0, shstr_off as u64, shstr.len() as u64, 0, 1));
             let dynstr_idx = secs.len() as u32 + 1;
             secs.push((n_dyn, 6, 3, dyn_off as u64 + bias, dyn_off as u64, ((ndyn - spec.dynamic_section_cuts_null as usize) * dynent) as u64, dynstr_idx, 8));
-            secs.push((n_dynstr, 3, 2, dynstr_off as u64 + bias, dynstr_off as u64, dynstr.len() as u64, 0, 1));
+            secs.push((n_dynstr, 3, 2, dynstr_off as u64 + bias + strtab_delta, dynstr_off as u64, dynstr.len() as u64, 0, 1));
             secs.push((n_data, 1, 3, data_off as u64 + bias, data_off as u64, data_len as u64, 0, 8));
             assert_eq!(secs.len(), nsec);
             for (i, s) in secs.iter().enumerate() {
